@@ -10,6 +10,9 @@ def run(ctx):
     pc.report(ctx, d, {"ttlv"}, {"encode-panic", "not-well-formed", "elements-differ", "decode-error", "reencoding-differs", "value-changed-by-roundtrip"})
     for x in d["messages"]:
         for p in x["problems"]:
+            if p.startswith("gating:payload-depends-on-preceding-item:"):
+                # what was put into the batch is not what comes out: a gated member of a later item is lost or invented
+                ctx.violation("message:item-not-preserved-in-batch:%s" % "/".join(x["msg"].split("/")[1:3]), "message %s: %s" % (x["msg"], p[:500]), x)
             if p.startswith("ttlv:") or p.startswith("panic:"):
                 ctx.violation("message:%s:%s" % (p.split(":")[1] if p.startswith("ttlv:") else "panic", x["msg"].split("/")[0] + "/" + x["msg"].split("/")[1]),
                               "message %s (operation/direction/version/population): %s" % (x["msg"], p[:600]), x)
